@@ -93,7 +93,7 @@ Vals == {P(k) : k \in Slots} \cup {I(9), Lt(3), Lt(5)}
 
 Ops1 == {"car", "cdr", "length", "reverse", "list?", "vector-length", "vector->list", "list->vector",
          "map-id", "for-each-collect", "vector-copy0"}
-Ops2 == {"cons", "append", "equal?", "map-cons"}
+Ops2 == {"cons", "append", "equal?", "map-cons", "for-each-cons"}
 OpsIdx == {"list-tail", "list-ref", "vector-ref", "vector-copy"}
 OpsKey == {"memq", "memv", "member", "assq", "assv", "assoc"}
 OpsMut2 == {"set-car!", "set-cdr!", "vector-fill!"}
@@ -137,6 +137,17 @@ Outcome(op, av) ==
                   Build(i, acc, h) == IF i = 0 THEN [s |-> acc, hp |-> h]
                                       ELSE LET c == Cons(l1.s[i], l2.s[i], h) IN Build(i - 1, <<c.v>> \o acc, c.hp)
                   b == Build(n, <<>>, hp)
+                  r == SeqToList(b.s, NilV, b.hp)
+              IN Ok(r.v, r.hp)
+    [] op = "for-each-cons" ->   \* (let ((acc '())) (for-each (lambda (a b) (set! acc (cons (cons a b) acc))) l1 l2) acc): shortest list
+         LET l1 == ListToSeq(av[1], hp)
+             l2 == ListToSeq(av[2], hp) IN
+         IF ~l1.ok \/ ~l2.ok THEN Oom
+         ELSE LET n == Min2(Len(l1.s), Len(l2.s))
+                  RECURSIVE BuildR(_, _, _)
+                  BuildR(i, acc, h) == IF i > n THEN [s |-> acc, hp |-> h]
+                                       ELSE LET c == Cons(l1.s[i], l2.s[i], h) IN BuildR(i + 1, <<c.v>> \o acc, c.hp)
+                  b == BuildR(1, <<>>, hp)
                   r == SeqToList(b.s, NilV, b.hp)
               IN Ok(r.v, r.hp)
     [] op = "vector-copy0" -> Prim("vector-copy", av, hp)
